@@ -15,8 +15,10 @@ M = [
  ("c05_direct_objective_call", "C05", "grey_wolf/grey_wolf_optimization.py", "            return self._greedy_select_agent(wolf, GreyWolf(**self._init_agent((x1 + x2 + x3) / 3).model_dump()))", "            cand = (x1 + x2 + x3) / 3\n            if self._task.objective_function(cand.tolist()) is None:\n                return wolf\n            return self._greedy_select_agent(wolf, GreyWolf(**self._init_agent(cand).model_dump()))"),
  ("c06_inplace_float_on_int_array", "C06", "grey_wolf/grey_wolf_optimization.py", "            pos = np.array(wolf.position)\n            a1, a2, a3", "            pos = np.array(wolf.position)\n            pos *= 1.0\n            a1, a2, a3"),
  ("c15_inplace_position", "C15,C02", "grey_wolf/grey_wolf_optimization.py", "        self._population = [evolve(wolf) for wolf in self._population]\n\n        # best 3", "        self._population = [evolve(wolf) for wolf in self._population]\n        if self._current_cycle % 3 == 0:\n            self._population[-1].position[0] = self._population[0].position[0]\n\n        # best 3"),
+ ("c11_shared_scratch_race", "C11", "abstract.py", "        position = self._task.initial_solution(position)\n        cost = self._fcn(position)", "        position = self._task.initial_solution(position)\n        self._scratch = position\n        cost = self._fcn(self._scratch)"),
  ("c07_stdlib_random", "C07", "whales/whales_optimization.py", None, None),
  ("c06_max_cycles_minus_one", "C06", "seagull/seagull_optimization.py", None, None),
+ ("c11_shared_scratch_race", "C11", "abstract.py", "        position = self._task.initial_solution(position)\n        cost = self._fcn(position)", "        position = self._task.initial_solution(position)\n        self._scratch = position\n        cost = self._fcn(self._scratch)"),
  ("c07_stdlib_random", "C07", "whales/whales_optimization.py", None, None),
  ("c09_config_inplace", "C09", "harmony_search/harmony_search_optimization.py", None, None),
  ("c10_trim_minus_one", "C10", "helpers.py", "return sort_by_cost(population)[:population_size]", "return sort_by_cost(population)[:population_size - 1] if population_size > 3 else sort_by_cost(population)[:population_size]"),
